@@ -24,15 +24,27 @@ type c05Case struct {
 	CallKeys []string   `json:"expected_calls"`
 	Multiset bool       `json:"multiset,omitempty"`
 	Shape    string     `json:"shape,omitempty"`
-	Before   []string   `json:"before,omitempty"` // kind "history": the request executed first, on another connection
-	Absent   bool       `json:"absent,omitempty"` // ... by a handler reporting every key absent
+	Delivery string     `json:"delivery,omitempty"` // "": whole; "1-byte"; "after-cr": a read ends after every CR
+	Before   []string   `json:"before,omitempty"`   // kind "history": the request executed first, on another connection
+	Absent   bool       `json:"absent,omitempty"`   // ... by a handler reporting every key absent
 }
 
 // c05Check executes one request after SELECT db and compares with the prediction.
 func c05Check(cs c05Case) (clause, detail string) {
 	input := concat(grammar.Encode([]string{"SELECT", fmt.Sprint(cs.DB)}), grammar.Encode(cs.Args))
 	var appCalls []string
-	r := runDouble(seq.Script{Input: input}, func(s *redis.Server, d *srv.Double) {
+	script := seq.Script{Input: input}
+	switch cs.Delivery {
+	case "1-byte":
+		script.Stride = 1
+	case "after-cr":
+		for i, b := range input {
+			if b == '\r' && i+1 < len(input) {
+				script.Splits = append(script.Splits, i+1)
+			}
+		}
+	}
+	r := runDouble(script, func(s *redis.Server, d *srv.Double) {
 		s.SetAuthCommandHandler(d)
 		s.RegisterExexutor("MYCMD", func(conn *redis.Conn, cmd string, args redis.Arguments) (*redis.Message, error) {
 			var rest []string
@@ -143,6 +155,16 @@ func c05Run(c *fw.Ctx) {
 				}
 				if clause, detail := c05Check(cs); clause != "" {
 					c.Violation("C05|"+r.Cmd+"|"+r.Shape+"|"+clause, detail+" request="+argsString(r.Args), cs)
+				} else if db == 0 {
+					// the same request as the transport may hand it over: byte by byte, and cut after every CR
+					for _, dl := range []string{"1-byte", "after-cr"} {
+						cd := cs
+						cd.Delivery = dl
+						c.Eval()
+						if clause, detail := c05Check(cd); clause != "" {
+							c.Violation("C05|"+r.Cmd+"|"+r.Shape+"|"+dl+"|"+clause, detail+" request="+argsString(r.Args)+" delivery="+dl, cd)
+						}
+					}
 				}
 			}
 		})
@@ -516,7 +538,7 @@ func init() {
 	fw.Register(&fw.Prop{
 		ID:    "C05",
 		Level: "exploration",
-		Rule:  "for every command that maps onto handler operations: all well-formed argument vectors from the independent grammar (positional values over small per-kind pools incl. binary/CRLF strings and boundary integers/floats, list tails of 1..3 elements with duplicates, pair lists with repeated keys, every legal option subset in every order for SET/ZADD/ZRANGE/ZRANGEBYSCORE/EXPIRE/SCAN/LPOP) x 3 letter-case variants x SELECT {0,3}; plus an arity ladder (every list / pair-list / score-member command with 15..4097 elements around the powers of two; thorough to 65537); plus the primitive call of every delegating composite (key/field passed through; ZREVRANGEBYSCORE bounds and exclusive markers on the right side), history independence (every valid catalogue request of every command, run first on another connection with a handler reporting everything present and one reporting everything absent, then up to four representative requests per command: the calls recorded for the later request are those predicted for it alone), AUTH forms, an application-registered executor and unknown names at edit distance 1. Each case is a distinct request; all are non-trivial (each compares the recorded handler calls with the predicted ones).",
+		Rule:  "for every command that maps onto handler operations: all well-formed argument vectors from the independent grammar (positional values over small per-kind pools incl. binary/CRLF strings and boundary integers/floats, list tails of 1..3 elements with duplicates, pair lists with repeated keys, every legal option subset in every order for SET/ZADD/ZRANGE/ZRANGEBYSCORE/EXPIRE/SCAN/LPOP) x 3 letter-case variants x SELECT {0,3} (and, for SELECT 0, delivered whole, byte by byte, and with a read boundary after every CR); plus an arity ladder (every list / pair-list / score-member command with 15..4097 elements around the powers of two; thorough to 65537); plus the primitive call of every delegating composite (key/field passed through; ZREVRANGEBYSCORE bounds and exclusive markers on the right side), history independence (every valid catalogue request of every command, run first on another connection with a handler reporting everything present and one reporting everything absent, then up to four representative requests per command: the calls recorded for the later request are those predicted for it alone), AUTH forms, an application-registered executor and unknown names at edit distance 1. Each case is a distinct request; all are non-trivial (each compares the recorded handler calls with the predicted ones).",
 		Assumptions: []string{
 			"the grammar in /verif/grammar (written from the Redis reference and the handler interface) is the reference for the expected call",
 			"SCAN patterns are compared behaviourally on 14 probe keys; ZRANGE BYSCORE REV, SCAN TYPE, BYLEX are not generated (the interface cannot express them unambiguously)",
